@@ -64,7 +64,7 @@ def run(chk):
                       {"session_tail": rj["session"][max(0, rj["index_in_session"] - 60):rj["index_in_session"]], "spec_diagnosis": rj["diag"]})
     chk.cov["distinct_nontrivial"] = len(sessions)
     if outs.get("ok", 0) < 200 or sum(v for k, v in outs.items() if k.startswith("err")) < 50:
-        raise ToolError("vacuity: outcomes %s" % outs)
+        chk.vacuity("vacuity: outcomes %s" % outs)
     chk.assumptions += ["fields whose value is not representable in their width are only required to stay inside their own bits (C07 does not fix their content)",
                         "the put hook (cfg rtcm_rs_verif) reports arguments faithfully"]
     return chk.finish("model_checking", RULE, extra={"outcomes": outs, "profiles": ["release", "relchk (overflow-checks)"]})
